@@ -13,7 +13,8 @@ Fixpoint core {R} (p : prog R) : Prop :=
   | Ret _ => True
   | Emit es k => (exists e, es = [e] /\ plain e /\ is_cli "ddone" e = false) /\ core k
   | Act f k => (forall g, (g_buf (fst (fst (f g))) = g_buf g /\ g_epoch (fst (fst (f g))) = g_epoch g /\
-                           g_quit (fst (fst (f g))) = g_quit g /\ g_ndone (fst (fst (f g))) = g_ndone g) /\
+                           g_quit (fst (fst (f g))) = g_quit g /\ g_ndone (fst (fst (f g))) = g_ndone g /\
+                           g_task (fst (fst (f g))) = g_task g) /\
                           exists e, snd (f g) = [e] /\ plain e /\ is_cli "ddone" e = false) /\
                forall v, core (k v)
   end.
